@@ -19,12 +19,11 @@ theorem rsMessage_length (mac : Bytes) (h : mac.length = 6) : (rsMessage mac).le
 /-- the message part: what the sender passes to `icmp6SendPacket` -/
 theorem rs_built (hm : Bytes) (h1 : hm.length = 6) :
     PV.Gen.LoopsMarshal.genRouterSolicitation_marshal (fun _ => Outcome.panic) (fun _ => Outcome.panic) (fun _ => Outcome.panic)
-      (fun _ => Outcome.panic)
       ({ PV.Gen.LoopsMarshal.G_RouterSolicitation.zero with
           Options := [(PV.Gen.LoopsMarshal.I_Option.LinkLayerAddress
             { PV.Gen.LoopsMarshal.G_LinkLayerAddress.zero with Direction := 1, MAC := hm })] } :
         PV.Gen.LoopsMarshal.G_RouterSolicitation) = .ok (rsMessage hm) :=
-  PV.Props.C03MarshalTie.rs_with_source_lla _ _ _ _ [] hm h1
+  PV.Props.C03MarshalTie.rs_with_source_lla _ _ _ [] hm h1
 
 theorem icmp6SendRS_tie (g : Mem) (hm lla dm dip : Bytes) (dport : Nat)
     (h1 : hm.length = 6) (h2 : dm.length = 6) (h3 : lla.length = 16) (h4 : dip.length = 16) (hfit : 70 ≤ g.length) :
@@ -39,12 +38,11 @@ theorem icmp6SendRS_bad_mac (g : Mem) (hm lla dm dip : Bytes) (dport : Nat) (h1 
     Gen.Send.ICMP6SendRouterSolicitation g hm lla dm dip dport = .err .other := by
   unfold Gen.Send.ICMP6SendRouterSolicitation
   have : PV.Gen.LoopsMarshal.genRouterSolicitation_marshal (fun _ => Outcome.panic) (fun _ => Outcome.panic) (fun _ => Outcome.panic)
-      (fun _ => Outcome.panic)
       ({ PV.Gen.LoopsMarshal.G_RouterSolicitation.zero with
           Options := [(PV.Gen.LoopsMarshal.I_Option.LinkLayerAddress
             { PV.Gen.LoopsMarshal.G_LinkLayerAddress.zero with Direction := 1, MAC := hm })] } :
         PV.Gen.LoopsMarshal.G_RouterSolicitation) = .err .other :=
-    PV.Props.C03MarshalTie.rs_bad_mac _ _ _ _ [] hm h1
+    PV.Props.C03MarshalTie.rs_bad_mac _ _ _ [] hm h1
   rw [this]
   rfl
 
